@@ -24,8 +24,8 @@ Print Assumptions c13_count_pass.
    array from 0, monotone, ending at the number of stored entries; row indices below
    indices_max), with or without a value array, every index sub-range, every
    elements_at_a_time E (even 0), every load chunk size L >= 1 and Lc >= 1 (the code
-   enforces >= 100), provided a value array comes with at least one stored entry in
-   the slice (otherwise the code raises: c13_transpose_no_value_rejects, finding F2):
+   enforces >= 100) - a slice or a whole matrix without any stored entry included
+   (c13_transpose_empty_slice; the former finding F2) -
    the function returns (the fuel indices_max+1 of the `while True` block loop
    suffices) and
    - the blocks of output rows it processed tile [0, n_out) without gap or overlap;
@@ -40,7 +40,6 @@ Theorem c13_transpose_exact : forall m n_major use_data indices_max sl E L Lc,
   wf_comp m indices_max -> length (ptr m) = S n_major ->
   (use_data = true -> length (dat m) = length (idx m)) ->
   1 <= L -> 1 <= Lc ->
-  (use_data = true -> length (apply_slice sl (all_entries m use_data)) <> 0) ->
   exists t, transpose m use_data indices_max sl E L Lc = Ok t /\
     let out := t_out t in
     let n_out := n_out_of indices_max sl in
@@ -78,7 +77,6 @@ Theorem c13_transpose_is_spec : forall m use_data indices_max sl E L Lc,
   1 <= L -> 1 <= Lc ->
   (use_data = true -> length (dat m) = length (idx m)) ->
   (sl = None -> Forall (fun r => r < indices_max) (idx m)) ->
-  (use_data = true -> length (apply_slice sl (all_entries m use_data)) <> 0) ->
   exists t, transpose m use_data indices_max sl E L Lc = Ok t /\
             t_out t = transpose_spec m use_data indices_max sl /\
             chained 0 (t_blocks t) (n_out_of indices_max sl).
@@ -101,30 +99,42 @@ Theorem c13_block_loop_terminates : forall chunks sl E n fuel r0 nxt,
 Proof. exact fill_blocks_spec. Qed.
 Print Assumptions c13_block_loop_terminates.
 
-(* the model's rendering of finding F2: a value array and no stored entry in the
-   (slice of the) input -> ValueError, never a wrong file *)
-Theorem c13_transpose_no_value_rejects : forall m indices_max sl E L Lc,
-  1 <= L -> 1 <= Lc -> length (dat m) = length (idx m) ->
-  (sl = None -> Forall (fun r => r < indices_max) (idx m)) ->
-  length (apply_slice sl (all_entries m true)) = 0 ->
-  transpose m true indices_max sl E L Lc = Err EValue.
-Proof. exact transpose_no_value_rejects. Qed.
-Print Assumptions c13_transpose_no_value_rejects.
-
-(* ---- _transpose_sparse_matrix_on_disk_v2 (n_processors workers, each transposing a
-   slice of ceil(indices_max / n_processors) rows, pieces joined in range order with
-   pointer offsets): whenever it returns, it returns exactly what the serial function
-   computes on the whole range (c13_transpose_exact: out = transpose_spec ... None, so
-   every clause proved there holds for it), for every worker count and every budget.
-   When it does not return, that is one of the recorded findings F2w / F4 / F4z / F4m
-   (an empty slice with a value array; chunk shapes of the joined datasets). *)
-Theorem c13_parallel_concat : forall m use_data indices_max n_proc E L Lc out,
+(* the former finding F2 (a value array and no stored entry in the slice made h5py
+   refuse chunks=(0,)), now the positive statement: with or without a value array, a
+   slice - or a whole matrix - without any stored entry transposes to the empty matrix:
+   no index, no value, a pointer array of n_out + 1 zeros *)
+Theorem c13_transpose_empty_slice : forall m use_data indices_max sl E L Lc,
   1 <= L -> 1 <= Lc -> (use_data = true -> length (dat m) = length (idx m)) ->
+  (sl = None -> Forall (fun r => r < indices_max) (idx m)) ->
+  length (apply_slice sl (all_entries m use_data)) = 0 ->
+  exists t, transpose m use_data indices_max sl E L Lc = Ok t /\
+            t_out t = {| ptr := repeat 0 (S (n_out_of indices_max sl)); idx := []; dat := [] |} /\
+            chained 0 (t_blocks t) (n_out_of indices_max sl).
+Proof. exact transpose_empty_slice. Qed.
+Print Assumptions c13_transpose_empty_slice.
+
+(* ---- _transpose_sparse_matrix_on_disk_v2 (n_processors >= 1 workers, each transposing
+   a slice of max(1, ceil(indices_max / n_processors)) rows, pieces joined in range
+   order with pointer offsets): it returns, and returns exactly what the serial
+   function computes on the whole range (c13_transpose_exact: out = transpose_spec ...
+   None, so every clause proved there holds for it), for every worker count and every
+   budget - more workers than rows, slices without entries, fewer stored values than
+   rows, no stored value, no row at all included (the former findings F2w, F4, F4z,
+   F4m). *)
+Theorem c13_parallel_concat : forall m use_data indices_max n_proc E L Lc,
+  1 <= n_proc -> 1 <= L -> 1 <= Lc -> (use_data = true -> length (dat m) = length (idx m)) ->
   Forall (fun r => r < indices_max) (idx m) ->
-  transpose_v2 m use_data indices_max n_proc E L Lc = Ok out ->
-  out = transpose_spec m use_data indices_max None.
+  transpose_v2 m use_data indices_max n_proc E L Lc = Ok (transpose_spec m use_data indices_max None).
 Proof. exact transpose_v2_exact. Qed.
 Print Assumptions c13_parallel_concat.
+
+(* in particular without any stored value: the empty matrix *)
+Theorem c13_parallel_empty : forall m use_data indices_max n_proc E L Lc,
+  1 <= n_proc -> 1 <= L -> 1 <= Lc -> idx m = [] -> (use_data = true -> dat m = []) ->
+  transpose_v2 m use_data indices_max n_proc E L Lc =
+  Ok {| ptr := repeat 0 (S indices_max); idx := []; dat := [] |}.
+Proof. exact transpose_v2_empty. Qed.
+Print Assumptions c13_parallel_empty.
 
 (* ---- _get_slices_for_copy: in every dimension the hyperslab bounds start at 0, are
    contiguous and non-empty, end at the extent, and cutting along them and gluing gives
@@ -148,12 +158,15 @@ Theorem c13_copy_h5_2d : forall (d : dense) nr nc per_dim,
 Proof. exact copy_h5_2d_exact. Qed.
 Print Assumptions c13_copy_h5_2d.
 
-(* ---- copy_layer_to_x: whenever the chunked copy is accepted it is the identity *)
-Theorem c13_copy_layer_sparse : forall (l : list Z) chunks out,
-  copy_array l chunks = Ok out -> out = l.
-Proof. exact (@copy_array_exact Z). Qed.
+(* ---- copy_layer_to_x, sparse layer: each of the three arrays - an empty one included
+   (the former finding F-copy-layer-empty-sparse) - is copied as it is, whatever chunk
+   shape HDF5 reports for it (a chunk dimension is at least 1; it may exceed the extent) *)
+Theorem c13_copy_layer_sparse : forall (l : list Z) chunks,
+  (forall c, chunks = Some c -> 1 <= c) -> copy_array l chunks = Ok l.
+Proof. exact (@copy_array_total Z). Qed.
 Print Assumptions c13_copy_layer_sparse.
 
+(* dense layer: whenever the chunked copy is accepted it is the identity *)
 Theorem c13_copy_layer_dense : forall (d : dense) nr nc chunks out,
   length d = nr -> Forall (fun row => length row = nc) d ->
   copy_dense d nr nc chunks = Ok out -> out = d.
@@ -175,9 +188,9 @@ Definition c13_ex : comp :=
   {| ptr := [0; 2; 2; 3; 5]; idx := [0; 2; 2; 0; 2]; dat := [5; 6; 7; 8; 9]%Z |}.
 Example c13_example_wf :
   wf_comp c13_ex 3 /\ length (ptr c13_ex) = 5 /\ length (dat c13_ex) = length (idx c13_ex) /\
-  no_dup_minor c13_ex /\ length (apply_slice None (all_entries c13_ex true)) <> 0.
+  no_dup_minor c13_ex.
 Proof.
-  split; [|split; [reflexivity | split; [reflexivity | split]]].
+  split; [|split; [reflexivity | split; [reflexivity|]]].
   - unfold wf_comp, c13_ex; cbn [ptr idx dat hd last length mono].
     split; [reflexivity | split; [reflexivity | split]].
     + lia.
@@ -186,7 +199,6 @@ Proof.
     assert (D : j = 0 \/ j = 1 \/ j = 2 \/ j = 3) by lia.
     destruct D as [ -> | [ -> | [ -> | -> ] ] ]; vm_compute;
       repeat (apply NoDup_cons; [cbn [In]; lia|]); apply NoDup_nil.
-  - vm_compute. discriminate.
 Qed.
 Example c13_example_run :
   match transpose c13_ex true 3 None 2 2 1 with
@@ -202,6 +214,30 @@ Example c13_example_slice :
   | Err _ => False
   end.
 Proof. vm_compute. reflexivity. Qed.
+(* a slice without entries (row 1 of c13_ex), a matrix without any stored value, a
+   matrix without rows: the empty matrix, serial and parallel, with a value array *)
+Definition c13_zero : comp := {| ptr := [0; 0; 0; 0; 0]; idx := []; dat := [] |}.
+Example c13_example_empty :
+  match transpose c13_ex true 3 (Some (1, 2)) 2 2 1 with
+  | Ok t => t_out t = {| ptr := [0; 0]; idx := []; dat := [] |} /\ t_blocks t = [(0, 1)]
+  | Err _ => False
+  end /\
+  match transpose c13_zero true 3 None 2 2 1 with
+  | Ok t => t_out t = {| ptr := [0; 0; 0; 0]; idx := []; dat := [] |} /\ t_blocks t = [(0, 3)]
+  | Err _ => False
+  end /\
+  transpose_v2 c13_zero true 3 2 2 2 1 = Ok {| ptr := [0; 0; 0; 0]; idx := []; dat := [] |} /\
+  transpose_v2 c13_zero true 0 2 2 2 1 = Ok {| ptr := [0]; idx := []; dat := [] |} /\
+  (* more workers than rows; fewer stored values than rows + 1 (the former F4) *)
+  transpose_v2 c13_ex true 3 5 2 2 1 =
+  Ok {| ptr := [0; 2; 2; 5]; idx := [0; 3; 0; 2; 3]; dat := [5; 8; 6; 7; 9]%Z |} /\
+  transpose_v2 {| ptr := [0; 1; 1]; idx := [2]; dat := [4]%Z |} true 3 1 2 2 1 =
+  Ok {| ptr := [0; 0; 0; 1]; idx := [0]; dat := [4]%Z |} /\
+  copy_array (@nil Z) (Some 1024) = Ok [] /\
+  amalgamate_csr [{| ptr := [0; 0]; idx := []; dat := [] |};
+                  {| ptr := [0; 1; 2]; idx := [3; 0]; dat := [7; 8]%Z |}] 3 =
+  Ok {| ptr := [0; 0; 1; 2]; idx := [3; 0]; dat := [7; 8]%Z |}.
+Proof. vm_compute. repeat split; reflexivity. Qed.
 Example c13_example_slices : slices_for_copy [5; 3] 2 = [[(0, 2); (2, 4); (4, 5)]; [(0, 2); (2, 3)]].
 Proof. vm_compute. reflexivity. Qed.
 Example c13_example_parallel :
